@@ -1,11 +1,17 @@
 package main
 
 import (
+	"bytes"
 	"fmt"
 	"os"
+	"os/exec"
+	"runtime/pprof"
 	"sort"
+	"strings"
+	"time"
 
 	"verif/checks"
+	"verif/internal/enum"
 	"verif/internal/ev"
 )
 
@@ -40,6 +46,101 @@ func main() {
 		usage()
 	}
 	r := ev.New(id, tier, c.Level)
+	if out := os.Getenv("VERIF_SHARD_OUT"); out != "" {
+		// shard child
+		runCheck(c, r)
+		if err := r.DumpPartial(out); err != nil {
+			fmt.Fprintln(os.Stderr, "dump partial:", err)
+			os.Exit(3)
+		}
+		return
+	}
+	if !c.Sharded || os.Getenv("VERIF_INPROC") != "" {
+		runCheck(c, r)
+		os.Exit(r.Finish())
+	}
+	os.Exit(parent(c, r, id, tier))
+}
+
+func runCheck(c *checks.Check, r *ev.Rec) {
+	if pf := os.Getenv("VERIF_PROF"); pf != "" {
+		f, _ := os.Create(fmt.Sprintf("%s.%d", pf, r.Shard))
+		pprof.StartCPUProfile(f)
+		c.Run(r)
+		pprof.StopCPUProfile()
+		f.Close()
+		return
+	}
 	c.Run(r)
-	os.Exit(r.Finish())
+}
+
+// parent spawns one shard process per core (each single-threaded over its share of every enumeration of the check),
+// merges their partial results and finishes. A shard that dies is a harness error unless it printed a Go fatal error
+// or panic from the code under test, which is reported as a violation (crash).
+func parent(c *checks.Check, r *ev.Rec, id, tier string) int {
+	n := enum.Workers()
+	dir, err := os.MkdirTemp("", "vc-"+id+"-")
+	if err != nil {
+		fmt.Fprintln(os.Stderr, err)
+		return 2
+	}
+	defer os.RemoveAll(dir)
+	type res struct {
+		k      int
+		err    error
+		stderr string
+	}
+	ch := make(chan res, n)
+	for k := 0; k < n; k++ {
+		go func(k int) {
+			cmd := exec.Command(os.Args[0], "check", id, tier)
+			var eb bytes.Buffer
+			cmd.Stderr = &eb
+			cmd.Stdout = &eb
+			cmd.Env = append(os.Environ(), fmt.Sprintf("VERIF_SHARD=%d", k), fmt.Sprintf("VERIF_NSHARDS=%d", n),
+				fmt.Sprintf("VERIF_SHARD_OUT=%s/part-%d.json", dir, k), fmt.Sprintf("VERIF_START_UNIX=%d", time.Now().Unix()), "GOMAXPROCS=2", "GOGC=200")
+			err := cmd.Run()
+			ch <- res{k, err, eb.String()}
+		}(k)
+	}
+	bad := 0
+	for i := 0; i < n; i++ {
+		x := <-ch
+		if x.err != nil {
+			tail := x.stderr
+			if len(tail) > 3000 {
+				tail = tail[:1500] + "\n...\n" + tail[len(tail)-1500:]
+			}
+			if strings.Contains(x.stderr, "fatal error:") || strings.Contains(x.stderr, "panic:") {
+				r.Violation("process-crash", fmt.Sprintf("shard %d crashed: %s", x.k, firstLine(x.stderr, "fatal error:", "panic:")), map[string]any{"stderr": tail})
+			} else {
+				fmt.Fprintf(os.Stderr, "HARNESS-ERROR: shard %d failed: %v\n%s\n", x.k, x.err, tail)
+				bad++
+			}
+			continue
+		}
+		if err := r.MergePartial(fmt.Sprintf("%s/part-%d.json", dir, x.k)); err != nil {
+			fmt.Fprintf(os.Stderr, "HARNESS-ERROR: merging shard %d: %v\n", x.k, err)
+			bad++
+		}
+	}
+	r.Extra["shard_processes"] = n
+	if bad > 0 {
+		r.Exhaustive = false
+		r.Extra["shards_failed"] = bad
+		r.Finish()
+		return 2
+	}
+	return r.Finish()
+}
+
+func firstLine(s string, markers ...string) string {
+	for _, l := range strings.Split(s, "\n") {
+		for _, m := range markers {
+			if strings.Contains(l, m) {
+				return l
+			}
+		}
+	}
+	return ""
 }
